@@ -97,6 +97,7 @@ type c08Run struct {
 	trigger int // index (among injectable events, in order of occurrence) after which to inject; -1 = never
 	nInj    int
 	stallAt bool // timeout flavour: do not inject, just stall everything at the trigger
+	delay   time.Duration // inject this long AFTER the trigger event (mid-sleep injection)
 	inject  func()
 	fired   bool
 	firedAt time.Time
@@ -117,6 +118,7 @@ type c08Run struct {
 	peerBytesAtFire      int64
 	peerBytes            int64
 	rstSeen              int32
+	lateInject           bool
 	dialGate             chan struct{}
 	dialsStarted         int32
 	dialsDone            int32
@@ -194,9 +196,20 @@ func (r *c08Run) hit(tok, name string, injectable bool) bool {
 			c08Open(g)
 		}
 	}
+	delay := r.delay
 	r.mu.Unlock()
 	if fire {
-		if !r.stallAt {
+		switch {
+		case r.stallAt:
+		case delay > 0:
+			time.AfterFunc(delay, func() {
+				r.mu.Lock()
+				r.firedAt = time.Now()
+				r.lateInject = true
+				r.mu.Unlock()
+				r.inject()
+			})
+		default:
 			r.inject()
 		}
 		close(r.firedCh)
@@ -310,7 +323,12 @@ func (d *c08Dialer) dial(ctx context.Context, network, addr string) (net.Conn, e
 	if r != nil {
 		atomic.AddInt32(&r.dialsDone, 1)
 		if err == nil {
-			r.hit("dialDone", "dialDone", true)
+			if r.hit("dialDone", "dialDone", true) && r.stallAt {
+				select {
+				case <-r.release:
+				case <-time.After(c08HardLimit):
+				}
+			}
 		}
 	}
 	return conn, err
@@ -326,7 +344,12 @@ func (d *c08Dialer) handshake(ctx context.Context, addr string, plain net.Conn) 
 	cs := tc.ConnectionState()
 	if r != nil {
 		atomic.AddInt32(&r.hsDone, 1)
-		r.hit("hsDone", "hsDone", true)
+		if r.hit("hsDone", "hsDone", true) && r.stallAt {
+			select {
+			case <-r.release:
+			case <-time.After(c08HardLimit):
+			}
+		}
 	}
 	return tc, &cs, nil
 }
